@@ -40,12 +40,13 @@ func clustersim(args []string) error {
 	mix := fs.String("mix", "kill,term,transfer", "nemesis actions to draw from")
 	snapCount := fs.Int("snapcount", 40, "")
 	think := fs.Int("think", 110, "mean client think time in ms")
+	nrep := fs.Int("n", 3, "replicas (the batch stage uses a 1-replica group: entries proposed together commit together)")
 	fs.Parse(args)
 	if *epochOps > 200 {
 		*epochOps = 200
 	}
 	extra := []string{"-snapcount", fmt.Sprint(*snapCount), "-snapcatchup", "10", "-keepwal", "2", "-keepbackup", "2", "-walseg", "8192"}
-	cl, err := newCluster(*vnode, *root, 3, *engine, extra)
+	cl, err := newCluster(*vnode, *root, *nrep, *engine, extra)
 	if err != nil {
 		return err
 	}
@@ -116,6 +117,79 @@ func clustersim(args []string) error {
 		if _, res, err := s.restart(f); err != nil || res != "ready" {
 			return env("follower did not restart")
 		}
+		if !cl.settle(90*time.Second) || !cl.readAll(h) {
+			return env("no settle")
+		}
+		h.add(trace.M{"ev": "settle"})
+		validEpochs = 1
+	}
+
+	if *kind == "batch" {
+		// strict stage: a write batch made on purpose.  The leader's raft goroutine is held at hook
+		// ready.advanced until three more waiters have been registered (hook wait.register), so two
+		// concurrent batchable commands on different keys (SET, DEL) are queued for one Ready; in a
+		// 1-replica group (-n 1) they are then committed together and applied as ONE write batch
+		// (CommitBatch answers both; with followers each proposal gets its own append and ack).  Their
+		// answers differ (OK / 1), so answers swapped inside the batch are visible.
+		h.add(trace.M{"ev": "reset", "weak": false, "st": cur})
+		ld := s.leader()
+		if ld == 0 {
+			return env("no leader")
+		}
+		one := func(op zop, to time.Duration) bool {
+			c, err := dialResp(cl.redisPort(ld), 2*time.Second)
+			if err != nil {
+				return false
+			}
+			defer c.close()
+			id := h.newID()
+			if op.T == "set" {
+				op.V = int64(1000 + id)
+			}
+			h.inv(id, op)
+			v, err := c.do(to, op.args()...)
+			if n, ok := replyInt(v); err == nil && ok {
+				h.ok(id, n)
+				return true
+			}
+			h.fail(id, err)
+			return false
+		}
+		made := 0
+		for it := 0; it < 4; it++ {
+			ka, kb := "s1", "s2"
+			if it%2 == 1 {
+				ka, kb = "s2", "s1"
+			}
+			if !one(zop{"set", kb, 0}, 3*time.Second) { // the key the DEL will find
+				return env("warm-up write failed")
+			}
+			cl.kids[ld].send("hold ready.advanced 1 wait.register 3")
+			if ln := cl.kids[ld].waitLine(5*time.Second, "ARMED "); !strings.HasPrefix(ln, "ARMED ") {
+				return env("arming failed")
+			}
+			if ln := cl.kids[ld].waitLine(5*time.Second, "HELD "); !strings.HasPrefix(ln, "HELD ") {
+				return env("raft goroutine was not held")
+			}
+			done := make(chan bool, 2)
+			go func() { done <- one(zop{"set", ka, 0}, 6*time.Second) }()
+			go func() { done <- one(zop{"del", kb, 0}, 6*time.Second) }()
+			// a waiter is registered just before its proposal is queued: the hold is released by a
+			// third registration (a write to the unmodelled key), when the first two are surely queued
+			time.Sleep(60 * time.Millisecond)
+			go func() {
+				if c, err := dialResp(cl.redisPort(ld), 2*time.Second); err == nil {
+					c.do(6*time.Second, "set", keyPrefix+"warm", "b")
+					c.close()
+				}
+			}()
+			a, b := <-done, <-done
+			if a && b {
+				made++
+			}
+			cl.kids[ld].waitLine(2*time.Second, "RELEASED ")
+		}
+		counts["batch_pairs_answered"] = made
 		if !cl.settle(90*time.Second) || !cl.readAll(h) {
 			return env("no settle")
 		}
